@@ -88,7 +88,7 @@ CHECKS["C02"] = dict(
          "opener at 0, single final '>', fits) is PROVED of EVERY text the concrete parser accepts as a message that begins with a registered opener and "
          "ends with '>' (accepted_text_is_a_spelling: no proper prefix of a complete document ending in a non-blank is complete - after the root has "
          "closed the lexer accepts blanks only -, and a complete document never ends in two '>'), whatever quotes, blanks, entity forms or attribute "
-         "order it uses; the canonical text to_string writes is an instance (printed_message_is_a_spelling). End-to-end theorems with nothing assumed "
+         "order it uses - and the tag itself follows from the text beginning with '<' (accepted_element_text_is_a_spelling, via Xml/FirstTag.v: a complete document that begins with '<' begins with '<' + its root tag); the canonical text to_string writes is an instance (printed_message_is_a_spelling). End-to-end theorems with nothing assumed "
          "of the parser: any_accepted_stream_is_framed(_promptly) for streams of any accepted spellings and opener-free junk, "
          "every_stream_of_written_messages_is_read_back / written_messages_are_delivered_promptly for what the library writes - ANY cut into pieces, "
          "exactly the messages in order, each as soon as its last byte arrived; the only hypothesis left is that each message fits the threshold (K1). "
